@@ -73,7 +73,111 @@ func pointPool(r *rng, nRand int) []pt {
 		pool = append(pool, pool[i].neg(), pool[i].endo())
 	}
 	pool = append(pool, tinyXPoints(10)...)
+	pool = append(pool, rarePoints(r, 2)...)
 	return pool
+}
+
+// rarePoints: genuine curve points whose coordinates put the field code into representations that random points
+// reach with probability 2^-20 .. 2^-230 — the inputs on which a dropped or re-ordered Normalise shows:
+//   (a) constructed from a chosen value v of x^3 mod p (x = cube root, y = square root of v+7):
+//       v's low 26-bit word within 7 of 2^26 (the +7 carries out of word 0), low two words all ones, v in [p-7, p-1]
+//       (v+7 wraps the prime: y = +-1, +-2, ...), v tiny;
+//   (b) found by search with the real field code (hooks): x whose x^2*x leaves Mul with a word above its 26-bit mask
+//       (an unpropagated carry), y whose y^2 does.
+// perClass points per class; deterministic in r.
+func rarePoints(r *rng, perClass int) []pt {
+	var out []pt
+	three := big.NewInt(3)
+	pm1 := new(big.Int).Sub(curveP, big.NewInt(1))
+	cubicExp := new(big.Int).Div(pm1, three)                                          // v is a cube  <=>  v^((p-1)/3) = 1
+	rootExp := new(big.Int).Div(new(big.Int).Add(curveP, big.NewInt(2)), big.NewInt(9)) // p = 7 mod 9: cube root = v^((p+2)/9)
+	sqrtExp := new(big.Int).Rsh(new(big.Int).Add(curveP, big.NewInt(1)), 2)
+	fromCube := func(v *big.Int) (pt, bool) {
+		v = new(big.Int).Mod(v, curveP)
+		if v.Sign() == 0 || new(big.Int).Exp(v, cubicExp, curveP).Cmp(big.NewInt(1)) != 0 {
+			return pt{}, false
+		}
+		w := new(big.Int).Mod(new(big.Int).Add(v, big.NewInt(7)), curveP)
+		y := new(big.Int).Exp(w, sqrtExp, curveP)
+		if new(big.Int).Mod(new(big.Int).Mul(y, y), curveP).Cmp(w) != 0 || y.Sign() == 0 {
+			return pt{}, false
+		}
+		x := new(big.Int).Exp(v, rootExp, curveP)
+		if new(big.Int).Exp(x, three, curveP).Cmp(v) != 0 {
+			return pt{}, false
+		}
+		return pt{x, y}, true
+	}
+	mask26 := big.NewInt(1<<26 - 1)
+	classes := []func(i int) *big.Int{
+		func(i int) *big.Int { // low word in [2^26-7, 2^26-1]
+			v := new(big.Int).SetBytes(r.bytes(32))
+			v.AndNot(v, mask26)
+			return v.Or(v, big.NewInt(int64(1<<26-1-r.intn(7))))
+		},
+		func(i int) *big.Int { // low two words all ones except the last few units: the carry runs through word 1
+			v := new(big.Int).SetBytes(r.bytes(32))
+			v.AndNot(v, big.NewInt(1<<52-1))
+			return v.Or(v, big.NewInt(int64(1<<52-1-r.intn(7))))
+		},
+		func(i int) *big.Int { return new(big.Int).Sub(curveP, big.NewInt(int64(1+i%7))) }, // v + 7 wraps p
+		func(i int) *big.Int { return big.NewInt(int64(1 + i)) },                           // tiny cube
+		func(i int) *big.Int { // v in the window [p - 2^32 - 977 ... p): x^3 has all high words at their maximum
+			return new(big.Int).Sub(curveP, new(big.Int).SetBytes(r.bytes(4)))
+		},
+	}
+	for _, cl := range classes {
+		found := 0
+		for i := 0; i < 400 && found < perClass; i++ {
+			if p, ok := fromCube(cl(i)); ok {
+				found++
+				out = append(out, p)
+				if found == 1 {
+					out = append(out, p.endo()) // the other cube roots share v
+				}
+			}
+		}
+	}
+	// (b) search with the real field arithmetic
+	denorm := func(f bec.VerifFV) bool {
+		for i := 0; i < 9; i++ {
+			if f[i] > 0x3ffffff {
+				return true
+			}
+		}
+		return f[9] > 0x3fffff
+	}
+	var zeroFV bec.VerifFV
+	foundX, foundY := 0, 0
+	for tries := 0; tries < 1500000 && (foundX < perClass || foundY < perClass); tries++ {
+		b := r.bytes(32)
+		b[0] &= 0x7f
+		var b32 [32]byte
+		copy(b32[:], b)
+		f := bec.VerifFieldSetBytes(&b32)
+		sq, _ := bec.VerifFieldOp("squareval", f, zeroFV, 0)
+		if foundY < perClass && denorm(sq) { // candidate y: need x with x^3 = y^2 - 7
+			y := new(big.Int).SetBytes(b)
+			v := new(big.Int).Mod(new(big.Int).Sub(new(big.Int).Mul(y, y), big.NewInt(7)), curveP)
+			if p, ok := fromCube(v); ok {
+				foundY++
+				out = append(out, pt{p.x, new(big.Int).Set(y)})
+			}
+		}
+		if foundX < perClass {
+			cu, _ := bec.VerifFieldOp("mul2", sq, f, 0)
+			if denorm(cu) {
+				x := new(big.Int).SetBytes(b)
+				w := new(big.Int).Mod(new(big.Int).Add(new(big.Int).Exp(x, three, curveP), big.NewInt(7)), curveP)
+				y := new(big.Int).Exp(w, sqrtExp, curveP)
+				if new(big.Int).Mod(new(big.Int).Mul(y, y), curveP).Cmp(w) == 0 {
+					foundX++
+					out = append(out, pt{x, y})
+				}
+			}
+		}
+	}
+	return out
 }
 
 // points with a tiny x-coordinate and their endomorphism images (beta*x, y), (beta^2*x, y): for these
@@ -476,6 +580,16 @@ func genC03(e *emitter, r *rng, thorough bool) {
 		construct("cons.infinity", modN(new(big.Int).Neg(new(big.Int).Mul(u2, d))), u2) // u1 G = -u2 Q
 		construct("cons.e0", new(big.Int), u2)                                          // e = 0: first product is infinity
 		construct("cons.u1=1", one, u2)
+		// u2 (the multiplier of the public key: the GLV/NAF path) from the structured scalar pool of the curve stream:
+		// +-t*lambda (degenerate split), boundary values, single bits, runs of ones, ...
+		if d == keys[0] || thorough {
+			for _, kb := range scalarBytesPool(r, 2) {
+				k := modN(new(big.Int).SetBytes(kb))
+				if k.Sign() != 0 {
+					construct("cons.u2pool", modN(new(big.Int).SetBytes(r.bytes(32))), k)
+				}
+			}
+		}
 		// hash >= N encodes e mod N
 		u1 := modN(new(big.Int).SetBytes(r.bytes(16)))
 		{
